@@ -56,9 +56,13 @@ impl Extension {
     }
 
     pub(crate) fn vec_from_document(document: &Document) -> Vec<Extension> {
+        // The namespace of the standard itself (under any name) is not an extension
         let mut extensions = Vec::new();
         for item in document.root_element().namespaces() {
             if let Some(name) = item.name() {
+                if item.uri() == crate::xml::E57_NAMESPACE_URL {
+                    continue;
+                }
                 extensions.push(Extension {
                     namespace: name.to_string(),
                     url: item.uri().to_string(),
